@@ -21,6 +21,7 @@ fn check_cross(pairs: &[(V, V)], seeded: bool, r: &mut Report, tag: &str) {
 	if pairs.is_empty() {
 		return;
 	}
+	r.case(&[14, seeded as u64, crate::reg::words_hash(pairs.iter().flat_map(|(a, b)| [crate::reg::vbits(*a), crate::reg::vbits(*b)]))]);
 	let first = pairs[0];
 	let (mut c, mut ca, mut cu, mut cs) = if seeded {
 		(Cross::new((), &first).unwrap(), CrossAbove::new((), &first).unwrap(), CrossUnder::new((), &first).unwrap(), Cross::new((), &(first.1, first.0)).unwrap())
@@ -121,6 +122,7 @@ pub struct RevCase {
 
 pub fn check_reversal(c: &RevCase, r: &mut Report) -> bool {
 	let (l, rt) = (c.left as P, c.right as P);
+	r.case(&[141, c.left as u64, c.right as u64, crate::reg::f64s_hash(&c.xs)]);
 	let init = c.xs[0] as V;
 	let made = guard(|| (UpperReversalSignal::new(l, rt, &init), LowerReversalSignal::new(l, rt, &init), ReversalSignal::new(l, rt, &init)));
 	let (mut up, mut lo, mut both) = match made {
@@ -195,6 +197,7 @@ pub fn check_reversal(c: &RevCase, r: &mut Report) -> bool {
 	r.cell_n(&format!("reversal:{b}:lower-fired"), ev[1]);
 	r.cell_n("reversal:fired-at-position>=PeriodType::MAX", ev[2]);
 	r.cell_n("reversal:fired-with-equal-element-on-the-left(tie)", ev[3]);
+	r.sample_case(29, || json!({"detectors": "Upper/Lower/ReversalSignal", "left": c.left, "right": c.right, "tag": c.tag, "stream (first 24)": crate::rep::fjs(&c.xs[..c.xs.len().min(24)]), "steps": c.xs.len(), "upper fired": ev[0], "lower fired": ev[1], "fired beyond position PeriodType::MAX": ev[2], "verdict": if ok { "held" } else { "violated" }}));
 	ok
 }
 
